@@ -1,7 +1,7 @@
 """C19 -- a malformed trash entry never prevents the well-formed ones from being handled.
 
 E1 product, differential, with owned directory order: well-formed sets x malformed-neighbour subsets x every
-permutation of the directory listing x nine reader invocations; the projection of each run onto the well-formed
+permutation of the directory listing x eleven reader invocations; the projection of each run onto the well-formed
 entries must equal the run without the malformed neighbours."""
 import itertools
 import math
@@ -13,17 +13,17 @@ from ..explore import product
 PID = 'C19'
 LEVEL = 'exploration'
 TECHNIQUE = ('bounded-exhaustive enumeration (model checking of the implementation), differential: well-formed entry sets x subsets of 11 malformed-neighbour '
-             'kinds x EVERY permutation of the directory listing (owned by the shim) x 9 reader invocations, compared with the neighbour-free run')
+             'kinds x EVERY permutation of the directory listing (owned by the shim) x 11 reader invocations, compared with the neighbour-free run')
 LEVEL_TEXT = ('each reader (trash-list, trash-restore under 3 sort modes, trash-rm exact and *, trash-empty without/with DAYS) is run on a trash directory holding '
               'well-formed entries plus every subset (size <= 1, thorough <= 2) of malformed neighbours under every order in which readdir may return them; what is '
               'listed, offered, restored, removed and purged among the well-formed entries must equal the run on the directory without the neighbours')
 LEVEL_NOTE = 'trusted: the shim\'s directory-order seam (listdir/scandir results are permuted); exit status and the fate of the malformed entries are don\'t-care'
 RULE = ('W in {1 home entry, 1 home + 1 volume entry, 2 home entries} x M subsets (|M|<=1 quick, <=2 thorough) of {non-.trashinfo file, empty, header only, binary, '
         'non-UTF-8, no Path, no DeletionDate, bad date, the same two sharing the Path of a well-formed entry, info without payload, payload without info, directory named x.trashinfo, files named .trashinfo / ..trashinfo / ...trashinfo, a Path escape that is not UTF-8} x all permutations of info/ (<= 4!) x '
-        'readers {list, restore date|path|none, rm exact, rm *, empty, empty 0, empty 7}; non-trivial = a malformed neighbour was read before a well-formed entry; '
+        'readers {list, list --files, list --size, restore date|path|none, rm exact, rm *, empty, empty 0, empty 7}; non-trivial = a malformed neighbour was read before a well-formed entry; '
         'distinct = (reader, neighbour kinds, outcome)')
 MK = ['nontrashinfo', 'empty', 'header', 'binary', 'nonutf8', 'nopath', 'nodate', 'baddate', 'nopayload', 'orphan', 'dirinfo', 'nodate-samepath', 'baddate-samepath', 'dangling-link-info', 'loop-link-info', 'tzdate', 'noname-empty', 'noname-valid', 'dotname-valid', 'dotdotname-valid', 'badescape']
-READERS = ['list', 'restore-date', 'restore-path', 'restore-none', 'rm-exact', 'rm-star', 'empty', 'empty0', 'empty7']
+READERS = ['list', 'list-files', 'list-size', 'restore-date', 'restore-path', 'restore-none', 'rm-exact', 'rm-star', 'empty', 'empty0', 'empty7']
 WSETS = ['h1', 'h1+v1', 'h2']
 TD = scen.HOME_TRASH
 TDV = '/mnt/v1/.Trash-0'
@@ -128,6 +128,16 @@ def observe(ws, ms, reader, perm):
             lines = r.out.split('\n')
             for td, nm, loc, d in ents:
                 obs['listed:' + nm] = lines.count('%s %s' % (d.replace('T', ' '), loc))
+        elif reader in ('list-files', 'list-size'):
+            # the two other renderings of trash-list: "DATE PATH -> PAYLOAD" and "SIZE PATH"
+            r = sb.run(['trash-list', '--' + reader.split('-')[1]], plan=plan, cwd='/')
+            lines = r.out.split('\n')
+            for td, nm, loc, d in ents:
+                if reader == 'list-files':
+                    obs['listed:' + nm] = lines.count('%s %s -> %s/files/%s' % (d.replace('T', ' '), loc, td, nm))
+                else:
+                    size = len(before['%s/files/%s' % (td, nm)][3])
+                    obs['listed:' + nm] = lines.count('%d %s' % (size, loc))
         elif reader.startswith('restore'):
             so = reader.split('-')[1]
             r0 = sb.run(['trash-restore', '--sort', so, '/'], plan=plan, cwd='/', stdin='\n')
